@@ -29,6 +29,8 @@ CONFIGS = {
     "spec_v6": {"ip": {"EVENT": "1/s"}, SPEC6: {"EVENT": "2/s"}},
     "spec_longer_interval": {"ip": {"EVENT": "2/s"}, SPEC: {"EVENT": "2/m"}},
     "ip_2m": {"ip": {"EVENT": "2/m"}},
+    # a global window longer than every per-address window (what cleanup() may forget is bounded by the longest interval of ANY scope)
+    "global_2m_ip_5s": {"global": {"EVENT": "2/m"}, "ip": {"EVENT": "5/s"}},
     # two rules that name the same interval (both apply), and the other documented spellings of the units
     "ip_dup_interval": {"ip": {"EVENT": "1/s,3/sec"}},
     "ip_dup_interval_rev": {"ip": {"EVENT": "3/second,2/S"}},
